@@ -29,9 +29,10 @@ import (
 var reAuth = regexp.MustCompile(`invalid (renter|host) signature|signature N is invalid|failed to satisfy spend policy|claims incorrect (policy|unlock conditions)|missing signatures|is redundant|unsigned FoundationAddressUpdate`)
 
 type env struct {
-	b   *harness.B
-	c   *chaingen.Chain
-	per int
+	b            *harness.B
+	c            *chaingen.Chain
+	per          int
+	directedDone bool
 }
 
 func (e *env) judge(kind, class string, must bool, reason string, cs consensus.State, blk types.Block, kinds []string) {
@@ -757,6 +758,7 @@ func run(b *harness.B) {
 		}
 		for done := 0; done < blocks; {
 			done += c.Grow(1+rng.IntN(10), chaingen.Plan{MaxTxns: 5})
+			e.directed()
 			if c.Height() > 2 && rng.IntN(6) == 0 {
 				c.RevertTip()
 			}
